@@ -584,7 +584,17 @@ fn cmd_run() {
 
 /// `harness cli <bin> [threads]`: every stdin line is `a=<hex>,<hex>,... in=<hex> [lim=<k>]`;
 /// runs `<bin> args...` with that stdin and prints `<exit|sigN|timeout> <hex stdout>`.
-fn cmd_cli(bin: &str, threads: usize) {
+#[repr(C)]
+struct RLimit {
+    cur: u64,
+    max: u64,
+}
+extern "C" {
+    fn setrlimit(resource: i32, rlim: *const RLimit) -> i32;
+}
+const RLIMIT_AS: i32 = 9; // Linux
+
+fn cmd_cli(bin: &str, threads: usize, as_limit: Option<u64>) {
     use std::process::{Command, Stdio};
     use std::sync::Mutex;
     let stdin = io::stdin();
@@ -620,6 +630,17 @@ fn cmd_cli(bin: &str, threads: usize) {
             let mut cmd = Command::new(&bin);
             for a in args {
                 cmd.arg(std::ffi::OsString::from_vec(a));
+            }
+            if let Some(lim) = as_limit {
+                // the address-space limit applies to the child only (set between fork and exec), never to this spawner
+                use std::os::unix::process::CommandExt;
+                unsafe {
+                    cmd.pre_exec(move || {
+                        let r = RLimit { cur: lim, max: lim };
+                        setrlimit(RLIMIT_AS, &r);
+                        Ok(())
+                    });
+                }
             }
             cmd.env("RUST_BACKTRACE", "0")
                 .stdin(Stdio::piped())
@@ -698,10 +719,11 @@ fn main() {
         Some("cli") => cmd_cli(
             &args[2],
             args.get(3).and_then(|s| s.parse().ok()).unwrap_or(16),
+            args.get(4).and_then(|s| s.parse().ok()),
         ),
         Some("mem") => mem::cmd_mem(&args[2..]),
         _ => {
-            eprintln!("usage: harness run | cli <bin> [threads] | mem ...");
+            eprintln!("usage: harness run | cli <bin> [threads [address-space limit of each child, bytes]] | mem ...");
             std::process::exit(2);
         }
     }
